@@ -327,6 +327,10 @@ def rule_R5(P, rep):
         if rh is None or F.field_of(lh) != ("ABTI_key", "id"):
             continue
         rn = F.nodes[F.strip(rh)]
+        if rn.get("k") == "ref" and rn.get("dk") == "var":
+            d = canon.reaching_def(F, rn["n"], rh)      # the id may pass through a temporary
+            if isinstance(d, int):
+                rn = F.nodes[F.strip(d)]
         if rn.get("k") == "call" and "fetch_add" in (rn.get("fn") or ""):
             an = F.nodes[F.strip(rn["a"][0])]
             inner = F.nodes[F.strip(an["e"])] if an.get("k") == "un" and an["op"] == "&" else None
